@@ -1847,45 +1847,16 @@ Proof.
   rewrite Ecl in Hin. destruct Hin.
 Qed.
 
-(* LClose sets UV_HANDLE_CLOSING *)
-Theorem close_sets_closing s i :
-  usable s i = true -> h_closing (hget (fst (lapi s (LClose i))) i) = true.
+(* LClose sets UV_HANDLE_CLOSING (and the flag is what [close_cb_eventually] asks for) *)
+Theorem close_sets_closing s p w i :
+  LInvG s p w -> usable s i = true -> h_closing (hget (fst (lapi s (LClose i))) i) = true.
 Proof.
-  intros U. cbn [lapi]. rewrite U. destruct (h_closing (hget s i)) eqn:Ec; cbn [negb andb fst]; [exact Ec|].
-  apply usable_facts in U. destruct U as [Hi _].
-  unfold l_close. rewrite Ec.
-  change (hget (set_closing ?x ?v) i) with (hget x i).
-  set (s1 := upd_h s i (with_closing true)).
-  assert (G1 : hget s1 i = with_closing true (hget s i)) by (apply hget_upd_h_same; exact Hi).
-  assert (L1 : length (hs s1) = length (hs s)) by apply len_upd_h.
-  destruct (h_kind (hget s i)).
-  - pose proof (handle_stop_fl (set_ts s1 (timer_close (ts s1) i)) i ltac:(cbn [hs set_ts]; lia)) as F.
-    unfold fl in F. inversion F as [[F1 F2 F3 F4]]. rewrite F3.
-    change (hget (set_ts s1 (timer_close (ts s1) i)) i) with (hget s1 i). rewrite G1. reflexivity.
-  - unfold watcher_stop. destruct (h_active (hget s1 i)); [|rewrite G1; reflexivity].
-    match goal with |- h_closing (hget (handle_stop ?x i) i) = true =>
-      pose proof (handle_stop_fl x i) as F; assert (Hx : hget x i = hget s1 i /\ length (hs x) = length (hs s1))
-        by (destruct (h_kind (hget s1 i)); split; reflexivity) end.
-    destruct Hx as (Hx1 & Hx2). unfold fl in F. specialize (F ltac:(lia)). inversion F as [[F1 F2 F3 F4]].
-    rewrite F3, Hx1, G1. reflexivity.
-  - unfold watcher_stop. destruct (h_active (hget s1 i)); [|rewrite G1; reflexivity].
-    match goal with |- h_closing (hget (handle_stop ?x i) i) = true =>
-      pose proof (handle_stop_fl x i) as F; assert (Hx : hget x i = hget s1 i /\ length (hs x) = length (hs s1))
-        by (destruct (h_kind (hget s1 i)); split; reflexivity) end.
-    destruct Hx as (Hx1 & Hx2). unfold fl in F. specialize (F ltac:(lia)). inversion F as [[F1 F2 F3 F4]].
-    rewrite F3, Hx1, G1. reflexivity.
-  - unfold watcher_stop. destruct (h_active (hget s1 i)); [|rewrite G1; reflexivity].
-    match goal with |- h_closing (hget (handle_stop ?x i) i) = true =>
-      pose proof (handle_stop_fl x i) as F; assert (Hx : hget x i = hget s1 i /\ length (hs x) = length (hs s1))
-        by (destruct (h_kind (hget s1 i)); split; reflexivity) end.
-    destruct Hx as (Hx1 & Hx2). unfold fl in F. specialize (F ltac:(lia)). inversion F as [[F1 F2 F3 F4]].
-    rewrite F3, Hx1, G1. reflexivity.
-  - match goal with |- h_closing (hget (handle_stop ?x i) i) = true =>
-      pose proof (handle_stop_fl x i) as F end.
-    unfold fl in F. specialize (F ltac:(cbn [hs set_alq set_async]; rewrite len_upd_h; lia)).
-    inversion F as [[F1 F2 F3 F4]]. rewrite F3.
-    change (h_closing (hget (upd_h s1 i (with_pending true)) i) = true).
-    rewrite hget_upd_h_same by lia. rewrite G1. reflexivity.
+  intros Hinv U. cbn [lapi]. rewrite U. destruct (h_closing (hget s i)) eqn:Ec; cbn [negb andb fst]; [exact Ec|].
+  apply usable_facts in U. destruct U as [Hi Hd].
+  pose proof (LInvG_l_close s p w i Hi Hd Hinv) as [HI _].
+  assert (Hin : In i (closing (l_close s i) ++ p)).
+  { unfold l_close. rewrite Ec. cbn [closing set_closing]. left. reflexivity. }
+  apply (hi_cl _ _ HI) in Hin. apply Hin.
 Qed.
 
 (* the hypotheses of the theorems above are satisfiable: a script with all
